@@ -1,3 +1,4 @@
+import sys
 from typing import Optional
 
 from django.core.cache import BaseCache, caches
@@ -38,8 +39,12 @@ def get_component_media_cache() -> BaseCache:
                 "django-components-media",
                 {
                     "TIMEOUT": None,  # No timeout
-                    "MAX_ENTRIES": None,  # No max size
-                    "CULL_FREQUENCY": 3,
+                    # NOTE: Django reads `MAX_ENTRIES` only from `OPTIONS`, and anything that is not
+                    #       a number (e.g. `None`) silently becomes the default of 300 entries.
+                    "OPTIONS": {
+                        "MAX_ENTRIES": sys.maxsize,  # No max size
+                        "CULL_FREQUENCY": 3,
+                    },
                 },
             )
 
